@@ -139,7 +139,10 @@ NameClash == {Tup(<<Cls("D1"), Cls("D1b"), Cls("D1")>>), Tup(<<Cls("D1b"), Cls("
               Map("builtin", P("str"), Tup(<<Cls("D1b"), Cls("D1")>>)),
               Tup(<<Coll("list", "builtin", Cls("R1b")), Cls("R1"), Cls("R1b")>>),
               Tup(<<Cls("A1"), Cls("A2")>>), Tup(<<Cls("A2"), Cls("A1")>>)}
-Adversarial == NoneMiddle \cup TwicePaths \cup NameClash
+\* `type Nothing = None`: the alias value is the object None, not NoneType
+NoneAlias == {Wrap("alias", NoneT), Coll("list", "builtin", Wrap("alias", NoneT)), Map("builtin", Wrap("alias", NoneT), P("date")),
+              Opt(Wrap("newtype", NoneT))}
+Adversarial == NoneMiddle \cup TwicePaths \cup NameClash \cup NoneAlias
 
 Universe == Depth2 \cup WithWrappers \cup Adversarial
 
